@@ -7,7 +7,7 @@ import LyModel.Diff.Model
 
 Fragment (`tools/checks/c06.py: in_fragment`): no two equal instances inside one duplicate-instance sibling group
 (key-less list, state leaf-list) — there `lyd_dup_inst_next` keeps pointers into a sibling list that apply is
-changing, which a value model cannot follow (and the C itself goes wrong, finding F53).  The default flag of
+changing, which a value model cannot follow (and the C itself goes wrong, finding F123).  The default flag of
 non-presence containers is not tracked through apply (`lyd_np_cont_dflt_set/del`): both sides print it as 0 in the
 replies of `diffapply`/`apply3`, and `eqData` (= `lyd_compare_siblings`) ignores it.
 Core Lean only.
@@ -17,7 +17,7 @@ open LyModel LyModel.Tree
 
 inductive AErr where
   | einval | eint
-  deriving Repr, BEq, DecidableEq
+  deriving Repr, DecidableEq
 
 def AErr.name : AErr → String
   | .einval => "Einval" | .eint => "Eint"
@@ -107,75 +107,109 @@ def insertUO (S : Schema) (sibs : List DNode) (hasParent : Bool) (n : DNode) (mo
 def anchorMetaName (S : Schema) (sid : Nat) : String :=
   if S.isDupInst sid then "position" else if S.isKind sid .list then "key" else "value"
 
+/-- the operation a diff node carries itself -/
+def ownOp (d : DNode) : Option Op := (getMeta d "operation").bind Op.ofBytes
+
+/-- `lyd_diff_get_op`: the node's own operation, else the one inherited from the diff ancestors -/
+def effOp (d : DNode) (inh : Option Op) : Option Op :=
+  match ownOp d with
+  | some o => some o
+  | none => inh
+
+/-- what the children of `d` inherit: a parent's `replace` is not inherited -/
+def childInhOf (d : DNode) (inh : Option Op) : Option Op :=
+  match ownOp d with
+  | some .replace => inh
+  | some o => some o
+  | none => inh
+
+/-- the recursive call of `lyd_diff_apply_r` on a child of the diff node -/
+abbrev Recur := List DNode → Bool → Option Op → DNode → Except AErr (List DNode)
+
+/-- apply the children of diff node `d` to the children `kids` of the matched / created data node -/
+def applyKids (S : Schema) (fx : Fixes) (recur : Recur) (d : DNode) (inh : Option Op) (kids : List DNode) :
+    Except AErr (List DNode) :=
+  -- [F126 repaired] what was copied below a moved instance only identifies it: no operation of its own, nothing to apply
+  let dkids := if fx.f126 && effOp d inh == some .replace && S.isUserOrd d.sid
+    then (noKeys S d.kids).filter (fun c => (getMeta c "operation").isSome) else noKeys S d.kids
+  dkids.foldlM (fun ks c => recur ks true (childInhOf d inh) c) kids
+
+/-- user-ordered create / move -/
+def applyUO (S : Schema) (fx : Fixes) (recur : Recur) (op : Op) (sibs : List DNode) (hasParent : Bool) (inh : Option Op)
+    (d : DNode) : Except AErr (List DNode) :=
+  let found := if op == .replace then findForApply S sibs d else none
+  if op == .replace && found.isNone then .error .einval else
+  let m0 := match found.bind (sibs[·]?) with
+    | some m => if fx.f120 && m.isTerm then m.setDflt d.flags.dflt else m       -- [F120 repaired]
+    | none => dupSingle S d
+  match getMeta d (anchorMetaName S d.sid) with
+  | none => .error .einval
+  | some str => do
+    let anchor := if str.isEmpty then none else some str
+    let _ ← insertUO S sibs hasParent m0 found anchor
+    let ks ← applyKids S fx recur d inh m0.kids
+    insertUO S sibs hasParent (m0.setKids ks) found anchor
+
+def applyNone (S : Schema) (fx : Fixes) (recur : Recur) (sibs : List DNode) (inh : Option Op) (d : DNode) :
+    Except AErr (List DNode) :=
+  match findForApply S sibs d with
+  | none => .error .einval
+  | some i =>
+    match sibs[i]? with
+    | none => .error .einval
+    | some m =>
+      if m.isTerm then .ok (sibs.set i (m.setDflt d.flags.dflt))
+      else if (noKeys S d.kids).isEmpty then .error .einval
+      else do
+        let ks ← applyKids S fx recur d inh m.kids
+        .ok (sibs.set i (m.setKids ks))
+
+def applyCreate (S : Schema) (fx : Fixes) (recur : Recur) (sibs : List DNode) (inh : Option Op) (d : DNode) :
+    Except AErr (List DNode) := do
+  let m0 := dupSingle S d
+  let ks ← applyKids S fx recur d inh m0.kids
+  .ok (insertNode S sibs (m0.setKids ks))
+
+def applyDelete (S : Schema) (sibs : List DNode) (d : DNode) : Except AErr (List DNode) :=
+  match findForApply S sibs d with
+  | none => .error .einval
+  | some i => .ok (sibs.eraseIdx i)
+
+def applyReplace (S : Schema) (sibs : List DNode) (d : DNode) : Except AErr (List DNode) :=
+  if !S.isKind d.sid .leaf then .error .einval else
+  match findForApply S sibs d with
+  | none => .error .einval
+  | some i =>
+    match sibs[i]? with
+    | none => .error .einval
+    | some m =>
+      -- lyd_change_term: LY_ENOT (same value, not default) is an error here
+      if m.val == d.val && !m.flags.dflt then .error .einval
+      else .ok (sibs.set i ((m.setVal d.val).setFlags d.flags))
+
+/-- one call of `lyd_diff_apply_r` with the recursion abstracted -/
+def applyStep (S : Schema) (fx : Fixes) (recur : Recur) (sibs : List DNode) (hasParent : Bool) (inh : Option Op) (d : DNode) :
+    Except AErr (List DNode) :=
+  match effOp d inh with
+  | none => .error .eint
+  | some op =>
+    if S.isUserOrd d.sid && (op == .create || op == .replace) then applyUO S fx recur op sibs hasParent inh d
+    else
+      match op with
+      | .none => applyNone S fx recur sibs inh d
+      | .create => applyCreate S fx recur sibs inh d
+      | .delete => applyDelete S sibs d
+      | .replace => applyReplace S sibs d
+
 /-- `lyd_diff_apply_r(first_node, parent_node, diff_node, …)`: `sibs` = `*first_node` and its siblings (keys included),
 `inh` = the operation inherited from the diff ancestors (`lyd_diff_get_op`: a parent's `replace` is not inherited) -/
-def applyNode (S : Schema) : (fuel : Nat) → (sibs : List DNode) → (hasParent : Bool) → (inh : Option Op) → (d : DNode) →
-    Except AErr (List DNode)
-  | 0, _, _, _, _ => .error .eint
-  | fuel + 1, sibs, hasParent, inh, d =>
-    let own := (getMeta d "operation").bind Op.ofBytes
-    let opO := match own with
-      | some o => some o
-      | none => inh
-    let childInh := match own with
-      | some .replace => inh
-      | some o => some o
-      | none => inh
-    let applyKids := fun (m : DNode) => (noKeys S d.kids).foldlM (fun ks c => applyNode S fuel ks true childInh c) m.kids
-    match opO with
-    | none => .error .eint
-    | some op =>
-      if S.isUserOrd d.sid && (op == .create || op == .replace) then
-        -- user-ordered create / move
-        let found := if op == .replace then findForApply S sibs d else none
-        if op == .replace && found.isNone then .error .einval else
-        let m0 := match found.bind (sibs[·]?) with
-          | some m => m
-          | none => dupSingle S d
-        match getMeta d (anchorMetaName S d.sid) with
-        | none => .error .einval
-        | some str => do
-          let anchor := if str.isEmpty then none else some str
-          let _ ← insertUO S sibs hasParent m0 found anchor
-          let ks ← applyKids m0
-          insertUO S sibs hasParent (m0.setKids ks) found anchor
-      else
-        match op with
-        | .none =>
-          match findForApply S sibs d with
-          | none => .error .einval
-          | some i =>
-            match sibs[i]? with
-            | none => .error .einval
-            | some m =>
-              if m.isTerm then .ok (sibs.set i (m.setDflt d.flags.dflt))
-              else if (noKeys S d.kids).isEmpty then .error .einval
-              else do
-                let ks ← applyKids m
-                .ok (sibs.set i (m.setKids ks))
-        | .create => do
-          let m0 := dupSingle S d
-          let ks ← applyKids m0
-          .ok (insertNode S sibs (m0.setKids ks))
-        | .delete =>
-          match findForApply S sibs d with
-          | none => .error .einval
-          | some i => .ok (sibs.eraseIdx i)
-        | .replace =>
-          if !S.isKind d.sid .leaf then .error .einval else
-          match findForApply S sibs d with
-          | none => .error .einval
-          | some i =>
-            match sibs[i]? with
-            | none => .error .einval
-            | some m =>
-              -- lyd_change_term: LY_ENOT (same value, not default) is an error here
-              if m.val == d.val && !m.flags.dflt then .error .einval
-              else .ok (sibs.set i ((m.setVal d.val).setFlags d.flags))
+def applyNode (S : Schema) (fx : Fixes) : (fuel : Nat) → Recur
+  | 0 => fun _ _ _ _ => .error .eint
+  | fuel + 1 => applyStep S fx (applyNode S fx fuel)
 
 /-- `lyd_diff_apply_all(&data, diff)` -/
-def apply (S : Schema) (data diffF : List DNode) : Except AErr (List DNode) :=
-  diffF.foldlM (fun sibs d => applyNode S (heightL diffF + 1) sibs false none d) data
+def apply (S : Schema) (data diffF : List DNode) (fx : Fixes := {}) : Except AErr (List DNode) :=
+  diffF.foldlM (fun sibs d => applyNode S fx (heightL diffF + 1) sibs false none d) data
 
 mutual
 /-- the default flag of non-presence containers is not compared after apply (see the header) -/
